@@ -400,7 +400,16 @@ func suiteWire(c *Ctx) {
 		emit("commit", fmt.Sprintf("CM(%s;%s;%s)", tR(protocol.LEAN_HELIX_COMMIT, inst, h, v, hash), tCs[0], wx(cms[0].Content().Share())), cms[0], km)
 		bp := blockproof.GenerateLeanHelixBlockProof(km, cms)
 		bpRaw := append([]byte{}, bp.Raw()...)
-		bpTerm := fmt.Sprintf("BP(%s;[%s];%s)", tR(protocol.LEAN_HELIX_COMMIT, inst, h, v, hash), strings.Join(tCs, ","), wx(bp.RandomSeedSignature()))
+		// the aggregate the proof must carry: over the random-seed shares of exactly these COMMITs (computed here, not read from the proof)
+		var shares []*protocol.SenderSignature
+		for k, cm := range cms {
+			shares = append(shares, (&protocol.SenderSignatureBuilder{MemberId: ids[k+1], Signature: primitives.Signature(cm.Content().Share())}).Build())
+		}
+		wantSeed := km.AggregateRandomSeed(h, shares)
+		if !bytes.Equal(wantSeed, bp.RandomSeedSignature()) {
+			c.Violation("C20", "blockproof-seed-not-from-shares", "the random seed signature of the generated block proof is not the aggregate of the COMMITs' shares", "proof="+hex.EncodeToString(bpRaw))
+		}
+		bpTerm := fmt.Sprintf("BP(%s;[%s];%s)", tR(protocol.LEAN_HELIX_COMMIT, inst, h, v, hash), strings.Join(tCs, ","), wx(wantSeed))
 		c.Emit("encbp "+bpTerm, hex.EncodeToString(bpRaw))
 		c.Emit("decbp "+hex.EncodeToString(bpRaw), wreadBP(bpRaw))
 		c.Class("factory/blockproof")
